@@ -29,3 +29,27 @@ Example C13_nontrivial :
      = [("project_number", VI 1503); ("name", VS "a/sample1")].
 Proof. vm_compute. repeat split. Qed.
 Print Assumptions C13_nontrivial.
+
+(* ---- the recursive mock value (Field.mock_value_original_type) ---- *)
+From GV Require Import Model.MockDfs Proofs.MockDfs.
+
+(* with a visited set threaded through the traversal the mock value is defined for EVERY schema, however recursive:
+   fuel = number of message types + 1 is never exhausted (contrast: samplegen's request object, C14) *)
+Theorem C13_mock_terminates : forall sch, schema_wf sch ->
+  forall fuel visited f, field_wf sch f -> unvisited sch visited < fuel ->
+  exists v visited', mock fuel sch visited f = Some (v, visited') /\ incl visited visited'.
+Proof. exact mock_total. Qed.
+Print Assumptions C13_mock_terminates.
+
+Theorem C13_mock_top_total : forall sch f, schema_wf sch -> field_wf sch f ->
+  exists v visited', mock (S (length sch)) sch [] f = Some (v, visited').
+Proof. exact mock_top_total. Qed.
+Print Assumptions C13_mock_top_total.
+
+Example C13_mock_recursive_example :
+  let sch := [("Turtle", [ {| mf_name := "turtle"; mf_kind := MMsg "Turtle"; mf_rep := false |};
+                           {| mf_name := "name"; mf_kind := MPrim PkStr; mf_rep := false |} ])] in
+  mock 2 sch [] {| mf_name := "t"; mf_kind := MMsg "Turtle"; mf_rep := false |}
+  = Some (MVDict [("turtle", MVDict []); ("name", MVStr "name_value")], ["Turtle"]).
+Proof. exact mock_recursive_example. Qed.
+Print Assumptions C13_mock_recursive_example.
